@@ -438,6 +438,62 @@ func c17Concurrent(c *vk.Ctx) {
 	}
 }
 
+// c17SimultaneousFirstOpens: several tunnels of one NEW client (same IP, same key) are opened at
+// the same instant (barrier), with a database that takes a while to answer. Afterwards all but
+// one are closed: the client still has a tunnel, so its time keeps counting.
+func c17SimultaneousFirstOpens(c *vk.Ctx) bool {
+	r := c.Rng
+	clk := &ctlClock{}
+	oprom.VerifSetNow(clk.Now)
+	db := &fakeDB{delay: 150 * time.Microsecond}
+	sm, _ := oprom.NewServiceMetrics(db)
+	reg := prometheus.NewRegistry()
+	reg.MustRegister(sm)
+	want := 0.0
+	for round := 0; round < c.N(150, 600); round++ {
+		G := 2 + r.Intn(3)
+		ip := net.IPv4(45, 91, byte(round>>8), byte(round)).To4()
+		key := "sim-key"
+		closers := make([]func(), G)
+		var wg sync.WaitGroup
+		start := make(chan struct{})
+		for g := 0; g < G; g++ {
+			wg.Add(1)
+			udp := r.Intn(2) == 0
+			go func(g int) {
+				defer wg.Done()
+				<-start
+				if udp {
+					um := sm.AddUDPNatEntry(&net.UDPAddr{IP: ip, Port: 3000 + g}, key)
+					closers[g] = um.RemoveNatEntry
+				} else {
+					tm := sm.AddOpenTCPConnection(&fakeNetConn{remote: &net.TCPAddr{IP: ip, Port: 3000 + g}, local: &net.TCPAddr{IP: net.IPv4(203, 0, 113, 10), Port: 9000}})
+					tm.AddAuthenticated(key)
+					closers[g] = func() { tm.AddClosed("OK", metrics.ProxyMetrics{}, time.Second) }
+				}
+			}(g)
+		}
+		close(start)
+		wg.Wait()
+		for g := 0; g < G-1; g++ {
+			closers[g]()
+		}
+		clk.Advance(10 * time.Second)
+		want += 10
+		mfs, _ := reg.Gather()
+		got := counterBy(mfs, "tunnel_time_seconds", "access_key")[key]
+		c.Eval(fmt.Sprintf("simultaneous-first-opens|tunnels=%d", G))
+		if math.Abs(got-want) > 1e-6 {
+			c.Violation("C17/time-lost-after-simultaneous-first-opens", map[string]any{"tunnels_opened_at_once": G, "closed": G - 1, "reported_s": got, "expected_s": want, "round": round})
+			return false
+		}
+		closers[G-1]()
+		clk.Advance(3 * time.Second)
+	}
+	c.Count("simultaneous_first_open_rounds", int64(c.N(150, 600)))
+	return true
+}
+
 func init() {
 	vk.Register(&vk.Spec{
 		ID:    "C17",
@@ -452,8 +508,12 @@ func init() {
 			c.Require("scrapes_checked")
 			c.Require("concurrent_rounds")
 			c.Require("e2e_scrapes_checked")
+			c.Require("simultaneous_first_open_rounds")
 			c17Sequential(c)
 			c17Concurrent(c)
+			if !c17SimultaneousFirstOpens(c) {
+				return
+			}
 			c17EndToEnd(c)
 		},
 	})
